@@ -310,7 +310,9 @@ fn run_case(o: &mut Out, src: &str, tag: &str, rng: &mut Rng) {
             if k == 0 {
                 o.pos.count("runs_before_first_token");
             }
-            let (bl, bc) = line_col(&buf, base);
+            // the run as the lexer reported it: `split_comment_token` gives the first comment the run's
+            // own (line, column, pos); whether those are TRUE is the business of the `c` lines above
+            let (bl, bc, bp) = (comments[0].line, comments[0].column, comments[0].pos);
             let imp = format!(
                 "[{}]",
                 comments
@@ -319,7 +321,7 @@ fn run_case(o: &mut Out, src: &str, tag: &str, rng: &mut Rng) {
                     .collect::<Vec<_>>()
                     .join(",")
             );
-            let args = format!("{} {:x} {:x} {:x}", hx(run), bl, bc, base);
+            let args = format!("{} {:x} {:x} {:x}", hx(run), bl, bc, bp);
             o.model.push3(format!("split {args}"), imp, "?".into());
             o.model.count("split");
             push_scan(o, run);
@@ -406,6 +408,11 @@ const WITNESSES: &[&str] = &[
     "module A { const S: string = \"é\"; const T: u32 = 1; }\n",
     "module A {} // last line without newline é",
     "/// doc é\n/// doc 2\nmodule A {}\n",
+    // the scanner backtracks from a failed longer match to a match ending in a line feed
+    "module A {\n    let a: u32 = 4 // c\n/ 2;\n    let b: u32 = 1;\n}\n",
+    "module A {\r\n    let a: u32 = 4 // c\r\n/ 2;\r\n    let b: u32 = 1; // d\r\n}\r\n",
+    "module A {\n    embed (inline) sv{{{\n\\{ B \\} u ();\n    }}}\n}\n",
+    "module A {\r\n    embed (inline) sv{{{\r\n\\{ B \\} u (); \\\r\n        bind u_a \\\r\n    }}}\r\n}\r\n",
     "module A {\n    var a: logic; /* 😀 */ /* b */ var b: logic;\n}\n",
 ];
 
@@ -425,12 +432,29 @@ fn files() -> Vec<(String, String)> {
 }
 
 /// Byte offsets where a token starts and where a string literal's content starts.
-fn anchors(src: &str) -> Option<(Vec<usize>, Vec<usize>)> {
+/// Remove the indentation in front of `\{` inside embed content (puts the escape at column 1).
+fn embed_escape_to_col1(src: &str) -> String {
+    let mut out = String::with_capacity(src.len());
+    let mut rest = src;
+    while let Some(i) = rest.find('\n') {
+        out.push_str(&rest[..=i]);
+        rest = &rest[i + 1..];
+        let trimmed = rest.trim_start_matches([' ', '\t']);
+        if trimmed.starts_with("\\{") {
+            rest = trimmed;
+        }
+    }
+    out.push_str(rest);
+    out
+}
+
+fn anchors(src: &str) -> Option<(Vec<usize>, Vec<usize>, Vec<usize>)> {
     let p = panic::catch_unwind(|| Parser::parse(src, &"t.veryl")).ok()?.ok()?;
     let mut col = Collect::default();
     col.veryl(&p.veryl);
     let mut starts = vec![];
     let mut strs = vec![];
+    let mut slashes = vec![];
     for (t, _) in &col.toks {
         let text = text_of(t);
         let pos = t.pos as usize;
@@ -441,12 +465,50 @@ fn anchors(src: &str) -> Option<(Vec<usize>, Vec<usize>)> {
         if text.starts_with('"') && text.len() >= 2 {
             strs.push(pos + 1);
         }
+        if text.starts_with('/') {
+            slashes.push(pos);
+        }
     }
-    Some((starts, strs))
+    Some((starts, strs, slashes))
 }
 
-fn mutate(src: &str, starts: &[usize], strs: &[usize], rng: &mut Rng) -> (String, &'static str) {
-    let kind = rng.below(8);
+fn mutate(src: &str, starts: &[usize], strs: &[usize], slashes: &[usize], rng: &mut Rng) -> (String, &'static str) {
+    // the two shapes that make the scanner backtrack over a line feed get a fixed share of the
+    // mutants of the files that can show them
+    let mut kind = if !slashes.is_empty() && rng.chance(1, 4) {
+        8
+    } else if src.contains("\\{") && rng.chance(1, 3) {
+        9
+    } else {
+        rng.below(8)
+    };
+    let embed_src;
+    if kind == 9 {
+        // `\{` of embed content at column 1 (the scanner backtracks over it after a text ending in a line feed)
+        embed_src = embed_escape_to_col1(src);
+        if embed_src != src {
+            return mutate_lines(&embed_src, rng, "embed_col1");
+        }
+        kind = 0;
+    }
+    if kind == 8 {
+        if slashes.is_empty() {
+            kind = 1;
+        } else {
+            // a `/` operator at column 1 directly after a comment run ending in a line feed
+            let mut ins: Vec<(usize, String)> = vec![];
+            for _ in 0..(1 + rng.below(3)) {
+                ins.push((*rng.pick(slashes), rng.pick(&["// y\n", " // é\n", "/* a */\n", "// a\n// b\n"]).to_string()));
+            }
+            ins.sort_by(|a, b| b.0.cmp(&a.0));
+            ins.dedup_by(|a, b| a.0 == b.0);
+            let mut s = src.to_string();
+            for (p, t) in ins {
+                s.insert_str(p, &t);
+            }
+            return mutate_lines(&s, rng, "slash_col1");
+        }
+    }
     let mut ins: Vec<(usize, String)> = vec![];
     let mut tag = "comments";
     let n_ins = 1 + rng.below(6) as usize;
@@ -504,21 +566,27 @@ fn mutate(src: &str, starts: &[usize], strs: &[usize], rng: &mut Rng) -> (String
     for (p, t) in ins {
         s.insert_str(p, &t);
     }
-    // line endings
+    mutate_lines(&s, rng, tag)
+}
+
+/// Line endings: 30 % of the mutants are converted to CRLF.
+fn mutate_lines(s: &str, rng: &mut Rng, tag: &'static str) -> (String, &'static str) {
     match rng.below(10) {
         0 | 1 | 2 => {
-            s = s.replace("\r\n", "\n").replace('\n', "\r\n");
-            tag = match tag {
+            let s = s.replace("\r\n", "\n").replace('\n', "\r\n");
+            let tag = match tag {
                 "comments" => "comments_crlf",
                 "strings" => "strings_crlf",
                 "before_first" => "before_first_crlf",
                 "tabs" => "tabs_crlf",
+                "slash_col1" => "slash_col1_crlf",
+                "embed_col1" => "embed_col1_crlf",
                 _ => "mixed_crlf",
             };
+            (s, tag)
         }
-        _ => {}
+        _ => (s.to_string(), tag),
     }
-    (s, tag)
 }
 
 fn gen_small(rng: &mut Rng) -> String {
@@ -620,8 +688,8 @@ pub fn main(opts: &Opts) -> i32 {
                 while made < n && !fs.is_empty() {
                     let k = i % fs.len();
                     i += 1;
-                    if let Some((starts, strs)) = &anch[k] {
-                        let (m, tag) = mutate(&fs[k].1, starts, strs, &mut rng);
+                    if let Some((starts, strs, slashes)) = &anch[k] {
+                        let (m, tag) = mutate(&fs[k].1, starts, strs, slashes, &mut rng);
                         run_case(&mut o, &m, tag, &mut rng);
                     }
                     made += 1;
